@@ -32,10 +32,15 @@ func (msg *MsgJoinPool) ValidateBasic() error {
 		return ErrInvalidShareAmountOut
 	}
 
+	seenDenoms := make(map[string]bool, len(msg.MaxAmountsIn))
 	for _, coin := range msg.MaxAmountsIn {
 		if err = coin.Validate(); err != nil {
 			return err
 		}
+		if seenDenoms[coin.Denom] {
+			return errorsmod.Wrapf(sdkerrors.ErrInvalidCoins, "duplicate denom %s in max amounts in", coin.Denom)
+		}
+		seenDenoms[coin.Denom] = true
 	}
 
 	return nil
